@@ -101,6 +101,9 @@ def step (st : St) (line : String) : St × String :=
         (st', s!"JUDGE C28 a request with key {key} " ++
           (if (words obs).head? == some "others=changed" then "changed another tenant's pipelines, outputs or usage"
            else "got a reply showing another tenant's pipeline/tenant ids, names or key") ++ s!" ({obs})")
+      else if ((showResp r).startsWith "404" || (showResp r).startsWith "401") && reply.startsWith "2" then
+        -- the model refuses (unknown key, or a pipeline the key's tenant does not own) but the server served it
+        (st', s!"JUDGE C28 the server served ({reply.take 40}) a request that must be refused ({showResp r}): key {key} does not own the addressed pipeline")
       else (st', verdict (showResp r) reply))
   | [] => (st, "")
   | _ => (st, "BADLINE")
